@@ -438,6 +438,10 @@ def check_envelope(pid):
              expect_violation=["Unforgeable"], label="sensitivity: TimeU64Wraps")
         c.mc("Envelope", "MC_C06.cfg", dict(MAlg="alg2", MaxOps=1, Deviations='{"EmptySigSkipsVerify"}', Emit=""),
              expect_violation=["Unforgeable", "NoForgeryOfHonest"], label="sensitivity: EmptySigSkipsVerify")
+        c.mc("Envelope", "MC_C06.cfg", dict(MAlg="alg2", MaxOps=2, Deviations='{"RawSigRetryAccepts"}', Emit=""),
+             expect_violation=["Unforgeable", "NoForgeryOfHonest"], label="sensitivity: RawSigRetryAccepts")
+        c.mc("Envelope", "MC_C06.cfg", dict(MAlg="alg1", MaxOps=2, Deviations='{"ZeroTimeDropped"}', Emit=""),
+             expect_violation=["Unforgeable"], label="sensitivity: ZeroTimeDropped")
         return c.finish()
     return run
 
